@@ -260,7 +260,7 @@ def _preamble_role_changes(cx, step, m):
     return out
 
 
-@obligation("LEASE.gate", ["C16", "C17", "C06", "C02"], floor=1, kind="guard (disjunctive) under assumption",
+@obligation("LEASE.gate", ["C16", "C17", "C06", "C02", "C20"], floor=1, kind="guard (disjunctive) under assumption",
             why="a (pre)vote request at a higher term must not depose a leader heard from within the election timeout, unless it is a transfer")
 def lease_gate(cx):
     step = cx.fn("Raft::step")
